@@ -5,7 +5,7 @@ Ownership ledger of the code the Rust backend emits (C06).
 A value crossing the boundary is abstracted to its **buffer tree**: one node per value position,
 remembering which kind of buffer instruction handles it (string / canonical list / element-wise
 list — `elemsZ` when the Rust element type is zero-sized, so that `Vec` never allocates — / map /
-fixed-length list / anything else), whether a heap block exists for it (`buf`: the
+fixed-length list / variant-like node `arm` (its payload is lowered inside a block) / anything else), whether a heap block exists for it (`buf`: the
 string or list is non-empty) and — for values built by user code — whether the Rust collection has
 spare capacity (`spare`: `into_boxed_slice` then reallocates).
 
@@ -32,7 +32,7 @@ namespace Witverif.Abi.RustLedger
 open Witverif.Abi
 
 inductive Kind where
-  | str | canon | elems | elemsZ | map | flist | area | plain
+  | str | canon | elems | elemsZ | map | flist | area | arm | plain
 deriving DecidableEq, Repr
 
 /-- buffer tree -/
@@ -209,12 +209,12 @@ def shape : Ty → Val → Tree
   | .flist e _, .list vs => .node .flist false false (shapeAll e vs)
   | .record fs, .record vs => .node .plain false false (shapeFields fs vs)
   | .tuple fs, .record vs => .node .plain false false (shapeFields fs vs)
-  | .variant cs, .variant i pv => .node .plain false false (match cs[i]? with
+  | .variant cs, .variant i pv => .node .arm false false (match cs[i]? with
       | some c => shapeOpt c pv
       | none => [])
-  | .option t, .variant _ (some v) => .node .plain false false [shape t v]
-  | .result a _, .variant 0 pv => .node .plain false false (shapeOpt a pv)
-  | .result _ b, .variant _ pv => .node .plain false false (shapeOpt b pv)
+  | .option t, .variant _ (some v) => .node .arm false false [shape t v]
+  | .result a _, .variant 0 pv => .node .arm false false (shapeOpt a pv)
+  | .result _ b, .variant _ pv => .node .arm false false (shapeOpt b pv)
   | _, _ => .node .plain false false []
 def shapeAll : Ty → List Val → List Tree
   | _, [] => []
@@ -290,6 +290,42 @@ def exportCounts (args res : Tree) : Nat × Nat × Nat × Nat × Nat :=
    countEv (fun e => match e with | .free i => !isGuestTag i.tag | _ => false) call,
    countEv (fun e => match e with | .free i => isGuestTag i.tag | _ => false) call,
    post.length, postSpec.length - post.length)
+
+mutual
+/-- number of temporary buffers of a borrowing lowering that are created *inside a block* (list
+element, variant arm, fixed-length list lowered to memory): their `Cleanup` guards cannot live in a
+local of the wrapper and are pushed onto its `cleanup_list` vector (bindgen.rs `cleanup`) -/
+def nestedTmp (block mem : Bool) : Tree → Nat
+  | .node k b _ kids =>
+      (if block && (k == .elems || k == .elemsZ || k == .map) && b then 1 else 0) +
+        nestedTmpKids (block || k == .elems || k == .elemsZ || k == .map || k == .arm || (k == .flist && mem))
+          (mem || k == .elems || k == .elemsZ || k == .map || k == .area) kids
+def nestedTmpKids (block mem : Bool) : List Tree → Nat
+  | [] => 0
+  | t :: ts => nestedTmp block mem t + nestedTmpKids block mem ts
+end
+
+/-- (re)allocations of a `Vec` that receives `k` single pushes (`RawVec`: capacity 4, then doubling) -/
+def vecGrowth (k : Nat) : Nat :=
+  if k = 0 then 0 else
+  let rec go (cap n : Nat) : Nat → Nat
+    | 0 => n
+    | fuel + 1 => if k ≤ cap then n else go (2 * cap) (n + 1) fuel
+  go 4 1 64
+
+/-- … and for one import call, counted from the moment the caller has built the arguments:
+(guest allocations = `Cleanup` temporaries of the borrowing lowering + collections built by lifting
+the result, frees of host blocks, frees of those guest blocks) — the phases `lowerBorrow`, `hostAlloc`,
+`lift`, `cleanup`, `dropLifted` of `importTrace` -/
+def importCounts (args res : Tree) : Nat × Nat × Nat :=
+  let tr := phase lowerBorrow false [0] args ++ phase hostAlloc false [1] res ++ phase lift false [1] res ++
+    phase cleanup false [0] args ++ phase dropLifted false [1] res
+  -- the wrapper's own `cleanup_list` vector is not part of `importTrace` (it is not a block of the value);
+  -- each growth step is one allocation and one free (the last block is freed when the wrapper returns)
+  let g := vecGrowth (nestedTmp false false args)
+  (countEv (fun e => match e with | .alloc i => i.tag == .out || i.tag == .vec | _ => false) tr + g,
+   countEv (fun e => match e with | .free i => i.tag == .host | _ => false) tr,
+   countEv (fun e => match e with | .free i => i.tag == .out || i.tag == .vec | _ => false) tr + g)
 
 mutual
 def hasMap : Ty → Bool
